@@ -33,7 +33,15 @@ def walk_zorg_page(
     tree = parser.prog()  # type: ignore[no-untyped-call]
     compiler = ZorgFileCompiler(zorg_page, error_manager)
     walker = antlr4.ParseTreeWalker()
-    walker.walk(compiler, tree)
+    try:
+        walker.walk(compiler, tree)
+    except Exception:  # pylint: disable=broad-except
+        # The parse tree of a page with syntax errors can be missing nodes
+        # that the compiler relies on. No notes are collected from such a
+        # page anyway, so we settle for flagging it.
+        if not error_manager.errors:
+            raise
+        zorg_page.has_errors = True
     return zorg_page
 
 
